@@ -846,18 +846,25 @@ class Merge:
                 if fid == 'float': return to_real(v)
                 if fid == 'bool': return truth(v)
                 x = to_real(v); return z3.If(x >= 0, x, -x)
-            if isinstance(f, ast.Attribute) and f.attr in ('add', 'discard', 'remove'):
-                o = self.expr(f.value, g)
+            # a bound method kept in a local before the loop (`get = dct.get`, `add = set.add`) is the same call
+            m_obj = m_name = None
+            if isinstance(f, ast.Attribute):
+                m_name = f.attr
+            elif fid is not None and fid in self.env and isinstance(self.env[fid], PyConst) and isinstance(self.env[fid].v, tuple) \
+                    and self.env[fid].v[0] == 'method':
+                _, m_obj, m_name = self.env[fid].v
+            if m_name in ('add', 'discard', 'remove'):
+                o = m_obj if m_obj is not None else self.expr(f.value, g)
                 if isinstance(o, Set):
                     k = self.expr(n.args[0], g)
                     if not self.is_key(k): raise Unsupported('set update at a key other than the loop key')
                     c = self.cell(o.oid)
-                    if f.attr == 'remove':
+                    if m_name == 'remove':
                         ex.obligations.append(('set.remove of a present key', list(ex.pc) + [g], c.present))
-                    c.present = z3.If(g, z3.BoolVal(f.attr == 'add'), c.present)
+                    c.present = z3.If(g, z3.BoolVal(m_name == 'add'), c.present)
                     return PyConst(None)
-            if isinstance(f, ast.Attribute) and f.attr == 'get':
-                o = self.expr(f.value, g)
+            if m_name == 'get':
+                o = m_obj if m_obj is not None else self.expr(f.value, g)
                 if isinstance(o, Dict):
                     k = self.expr(n.args[0], g); d = to_real(self.expr(n.args[1], g))
                     if not self.is_key(k): raise Unsupported('get at a key other than the loop key')
